@@ -200,4 +200,7 @@ Triage == (Judged /\ FailsOf(StrictInv) # {}) =>
 (* informational: the recorded handling class is the one the mechanism layer predicts (wb only) *)
 ClassName(c) == CASE c = None -> "none" [] c = Discard -> "discard" [] c = Withdraw -> "withdraw" [] OTHER -> "reset"
 Conf_Handling == (Judged /\ cfg.mode = "wb") => Obs.hand = ClassName(MechClass(FS, Pt, Taw, FALSE))
+(* always TRUE: reports the mismatches in the triage pass instead of failing one by one *)
+TriageConf == Conf_Handling \/ PrintT("VPOUT " \o ToJson([conf |-> [id |-> cfg.id, hand |-> Obs.hand,
+                                              mech |-> ClassName(MechClass(FS, Pt, Taw, FALSE))]]))
 =============================================================================
